@@ -11,6 +11,7 @@
 (*               (open = entered, exit ticket not yet passed);                              *)
 (*   visibility  v = number of write sections entered before (everything the previous       *)
 (*               holders wrote is seen by the next holder);                                 *)
+(*   panic       a lock operation panicked;                                                 *)
 (*   hang        the stress did not finish (a thread stuck in lock/read/write with all      *)
 (*               holders gone: lost wake-up on the real futex);                             *)
 (*   futex       wait on a changed word = EAGAIN at once, wake(n) returns min(n, parked)    *)
@@ -59,7 +60,8 @@ Step ==
               /\ bad' = IF FutexWakeOk(e) THEN bad ELSE Note("futex_wake")
               /\ UNCHANGED <<open, wcount, lastE, nsec>>
          [] e.ev = "stress_end" ->
-              /\ bad' = IF e.hang THEN Note("hang")
+              /\ bad' = IF e.panics > 0 THEN Note("panic")
+                        ELSE IF e.hang THEN Note("hang")
                         ELSE IF e.completed # e.threads * e.sections \/ nsec # e.completed THEN Note("sections_missing")
                         ELSE IF e.final # wcount THEN Note("visibility")
                         ELSE bad
